@@ -546,7 +546,7 @@ pub fn run(ctx: &Ctx) {
     let g = grid();
     let idx: Vec<usize> = (0..g.len()).collect();
     ctx.enumerate("c11.grid", &idx, |i| json!({"index": i}), |i, stats| check_struct(&g[*i], stats));
-    let cases = ctx.tier.pick(2500, 60000);
+    let cases = ctx.tier.pick(2500, 600000);
     ctx.search("c11.random", cases, 120, |tape, stats| {
         let s = random_struct(tape);
         check_struct(&s, stats)
